@@ -115,7 +115,7 @@ FUNCTIONS = list(_s.FUNCTIONS) + [
         ensures vs_exc == 0 ==> (POS(cursor) == LEN(cursor) || BYTE(cursor, POS(cursor)) == ';')"""},
     {'q': MA, 'sig': 'std::optional<std::basic_string<char>> Pistache::Http::Cookie::*', 'c': 'match_attribute_string', 'contract': """
         requires CUR_PRE(cursor) && FRESH(obj, sizeof(*obj)) && len <= 16 && LIT_PRE(name, len) && COOKIE_STR_ATTR(attr) && vs_exc == 0
-        assigns POS(cursor), obj->path, obj->domain, vs_exc, g_hit_end
+        assigns POS(cursor), obj->path, obj->domain, vs_exc, g_hit_end, g_j
         ensures COOKIE_EXC_OK && OLD(POS(cursor)) <= POS(cursor) && POS(cursor) <= LEN(cursor)
         ensures (vs_exc == 0 && RET) ==> POS(cursor) >= OLD(POS(cursor)) + len
         ensures (vs_exc == 0 && !RET) ==> POS(cursor) == OLD(POS(cursor))
@@ -123,7 +123,7 @@ FUNCTIONS = list(_s.FUNCTIONS) + [
         ensures (vs_exc == 0 && RET) ==> ATTR_DONE(cursor)"""},
     {'q': MA, 'sig': 'std::optional<int> Pistache::Http::Cookie::*', 'c': 'match_attribute_int', 'contract': """
         requires CUR_PRE(cursor) && FRESH(obj, sizeof(*obj)) && len <= 16 && LIT_PRE(name, len) && attr == offsetof(struct Pistache_Http_Cookie, maxAge) && vs_exc == 0
-        assigns POS(cursor), obj->maxAge, vs_exc, g_hit_end
+        assigns POS(cursor), obj->maxAge, vs_exc, g_hit_end, g_j
         ensures COOKIE_EXC_OK && OLD(POS(cursor)) <= POS(cursor) && POS(cursor) <= LEN(cursor)
         ensures (vs_exc == 0 && RET) ==> POS(cursor) >= OLD(POS(cursor)) + len
         ensures (vs_exc == 0 && !RET) ==> POS(cursor) == OLD(POS(cursor))
@@ -133,14 +133,14 @@ FUNCTIONS = list(_s.FUNCTIONS) + [
         ensures (vs_exc == 0 && RET) ==> ATTR_DONE(cursor)"""},
     {'q': MA, 'sig': 'bool Pistache::Http::Cookie::*', 'c': 'match_attribute_bool', 'contract': """
         requires CUR_PRE(cursor) && FRESH(obj, sizeof(*obj)) && len <= 16 && LIT_PRE(name, len) && COOKIE_BOOL_ATTR(attr) && vs_exc == 0
-        assigns POS(cursor), obj->secure, obj->httpOnly, vs_exc, g_hit_end
+        assigns POS(cursor), obj->secure, obj->httpOnly, vs_exc, g_hit_end, g_j
         ensures COOKIE_EXC_OK && OLD(POS(cursor)) <= POS(cursor) && POS(cursor) <= LEN(cursor)
         ensures (vs_exc == 0 && RET) ==> POS(cursor) >= OLD(POS(cursor)) + len
         ensures (vs_exc == 0 && !RET) ==> POS(cursor) == OLD(POS(cursor))
         ensures vs_exc == 0"""},
     {'q': MA, 'sig': 'Pistache::Http::FullDate> Pistache::Http::Cookie::*', 'c': 'match_attribute_date', 'contract': """
         requires CUR_PRE(cursor) && FRESH(obj, sizeof(*obj)) && len <= 16 && LIT_PRE(name, len) && attr == offsetof(struct Pistache_Http_Cookie, expires) && vs_exc == 0
-        assigns POS(cursor), obj->expires, vs_exc, g_hit_end
+        assigns POS(cursor), obj->expires, vs_exc, g_hit_end, g_j
         ensures COOKIE_EXC_OK && OLD(POS(cursor)) <= POS(cursor) && POS(cursor) <= LEN(cursor)
         ensures (vs_exc == 0 && RET) ==> POS(cursor) >= OLD(POS(cursor)) + len
         ensures (vs_exc == 0 && !RET) ==> POS(cursor) == OLD(POS(cursor))
@@ -151,14 +151,14 @@ FUNCTIONS = list(_s.FUNCTIONS) + [
      'ghost': [('Pistache_skip_whitespaces', 'before', 'g_flag_last = 0;'), ('match_attribute_bool', 'after', 'if ($RET) g_flag_last = 1;')],
      'dead_ok': ['throw std::runtime_error("Invalid cookie, missing value");'], 'contract': """
         requires len <= MAXLEN && FRESH(str, len) && vs_exc == 0
-        assigns vs_exc, g_hit_end, g_app_src, g_flag_last
+        assigns vs_exc, g_hit_end, g_j, g_app_src, g_flag_last
         # C17: malformed cookie text is rejected with an error, never a crash: every read lies in [str, str+len) (the text is an object of
         # exactly len bytes), the attribute loop terminates, and only std exceptions leave the function
         ensures COOKIE_EXC_OK
         # the name is the text before the first '=', the value starts right behind it
         ensures (vs_exc == 0 && RET.maxAge.has) ==> RET.maxAge.v >= 0""",
      'loops': ["""
-        assigns buf.vs_base_StreamBuf.pos, vs_exc, g_hit_end, g_app_src, g_flag_last, cookie, $HOISTED
+        assigns buf.vs_base_StreamBuf.pos, vs_exc, g_hit_end, g_j, g_app_src, g_flag_last, cookie, $HOISTED
         invariant buf.vs_base_StreamBuf.pos <= buf.vs_base_StreamBuf.len && vs_exc == 0 && (cookie.maxAge.has ==> cookie.maxAge.v >= 0)
         # every attribute -- known or extension -- is consumed together with the ';' that ends it, so that the next attribute name starts
         # behind the separator and never with it (flags excepted: the character behind the word is skipped unseen)
